@@ -227,7 +227,7 @@ package cluster
 
 // Start-up synchronisation is skipped only by a node that is the sole member of the server list.
 //@ func (*ClusterNode).Sync
-//@   property C14
+//@   property C14 C13
 //@   requires len(c.Servers) >= 1
 //@   ensures ncalls(syncUserCollections) == 0 ==> len(old(c.Servers)) == 1 && old(c.Servers[0]) == old(c.MyHostname) && result == nil
 //@   ensures ncalls(syncUserCollections) == 1 && lastres(syncUserCollections) != nil ==> result != nil && ncalls(syncShards) == 0
